@@ -33,7 +33,7 @@ ASSUMPTIONS = [
     'the value clause already fails']
 REQUIRED = ['kind:gauss', 'kind:lognorm', 'kind:gkde', 'kind:lnkde', 'kind:gmix', 'composed', 'mixed', 'plain',
             'nan', 'full', 'pad', 'drop', 'order2', 'order:noninvolution', 'refined', 'n_ids=1', 'n_times=1',
-            'nk=3', 'n_sim=2', 'nested', 'large_common_level:gmix', 'other_unit:small']
+            'nk=3', 'n_sim=2', 'nested', 'large_common_level:gmix', 'other_unit:small', 'identical_individuals']
 
 
 # --------------------------------------------------------------------------
@@ -118,6 +118,14 @@ def _spec(draw):
             for s in range(n_sim):
                 sim[s][r][j] = col[s]
 
+    # ---- two measured individuals with the very same complete record (rounded snapshot data): both count
+    twins = False
+    if n_ids >= 2 and gen.chance(draw, 0.1):
+        obs[0] = [[v if v is not None else draw(val(j)) for j, v in enumerate(row)] for row in obs[0]]
+        obs[1] = [list(row) for row in obs[0]]
+        drop = [d for d in drop if d[0] not in (0, 1)]
+        twins = True
+
     # ---- a large common level (counts around 2^24) with spreads of order one: the estimators depend on differences only
     level = None
     if not any(positive) and gen.chance(draw, 0.1):
@@ -147,11 +155,35 @@ def _spec(draw):
     refine = [_cuts(draw, p['nt'], p['nt']) for p in parts]
     nest = gen.chance(draw, 0.3)
     return dict(nest=nest, parts=parts, composed=composed, obs=obs, sim=sim, drop=drop, pad=pad, perm=perm,
-                order1=order1, order2=order2, refine=refine, level=level, unit=unit)
+                order1=order1, order2=order2, refine=refine, level=level, unit=unit, twins=twins)
 
 
 def strategy(tier):
     return _spec()
+
+
+def extra_cases(tier):
+    """Problem sizes at which an implementation would start to work in blocks (the (n_sim, n_ids, n_obs, n_times) table of
+    kernel terms has more than 2^20 entries): 40 measured and 500 / 437 simulated individuals. Only the value (and its
+    agreement with the score of compute_sensitivities) is checked for these."""
+    import random
+    out = []
+    for k, (kind, n_sim) in enumerate([('lnkde', 500), ('gkde', 437)]):
+        rng = random.Random(100 + k)
+        n_ids, n_obs, n_times = 40, 2, 30
+        pos = kind == 'lnkde'
+        obs = [[[None if rng.random() < 0.3 else gen.sig6(rng.uniform(0.5, 3.0) if pos else rng.uniform(-2.0, 2.0))
+                 for _ in range(n_times)] for _ in range(n_obs)] for _ in range(n_ids)]
+        for r in range(n_obs):
+            for j in range(n_times):
+                if all(obs[i][r][j] is None for i in range(n_ids)):
+                    obs[0][r][j] = 1.0
+        sim = [[[gen.sig6(rng.uniform(0.4, 3.5) if pos else rng.uniform(-2.5, 2.5)) for _ in range(n_times)]
+                for _ in range(n_obs)] for _ in range(n_sim)]
+        out.append(dict(nest=False, parts=[dict(kind=kind, nt=n_times)], composed=False, obs=obs, sim=sim, drop=[], pad=[],
+                        perm=list(range(n_ids)), order1=list(range(n_times)), order2=None, refine=[[n_times]], level=None,
+                        unit=None, twins=False, big=True))
+    return out
 
 
 def _shape(spec):
@@ -177,6 +209,10 @@ def classify(spec):
     if any(p.get('nk') == 3 for p in parts):
         labs.add('nk=3')
     labs.add('nan' if _has_nan(spec) else 'full')
+    if spec.get('big'):
+        labs.add('large_problem')
+    if spec.get('twins'):
+        labs.add('identical_individuals')
     if spec.get('unit'):
         labs.add('other_unit')
         if spec['unit'] < 1e-6:
@@ -301,6 +337,13 @@ def check(case):
         if not np.ma.is_masked(got) and np.isfinite(float(got)):
             v0 = float(got)
         _value(case, f, sim, want, 'log-likelihood')
+
+    if s.get('big'):
+        with case.clause('sensitivities'):
+            out = f.compute_sensitivities(sim.copy())
+            case.close(float(out[0]), want, rtol=1e-9, what='score of compute_sensitivities (large problem)')
+            case.equal(np.shape(out[1]), sim.shape, 'sensitivities shape (large problem)', kind='shape')
+        return
 
     with case.clause('sensitivities'):
         out = f.compute_sensitivities(sim.copy())
